@@ -25,6 +25,26 @@ def bit_order(prog: Program) -> RuleResult:
     )
     mod = prog.module(SUBSEQ)
     norm = _Pow2Norm()
+    # one answer, computed by the scan: no shortcut around it, nothing that depends on the type of the sequences
+    for fname in ("mask_from_subseq", "subseq_from_mask"):
+        f = prog.func(SUBSEQ, fname)
+        construct = f"{SUBSEQ}:{fname}/answer-from-the-scan"
+        floops = [l for l in walk_no_nested(f) if isinstance(l, (ast.For, ast.While))]
+        built = {dotted(st.target) for l in floops for st in ast.walk(l) if isinstance(st, ast.AugAssign)} | {
+            dotted(c.func.value) for l in floops for c in ast.walk(l) if isinstance(c, ast.Call) and isinstance(c.func, ast.Attribute) and c.func.attr in ("append", "add", "extend")
+        }
+        rets = [r for r in walk_no_nested(f) if isinstance(r, ast.Return)]
+        inits = [ast.dump(st.value) for st in f.body if isinstance(st, ast.Assign) and any(dotted(t) in built for t in st.targets)]
+        stray = [r for r in rets if not (isinstance(r.value, ast.Name) and r.value.id in built) and not (r.value is not None and ast.dump(r.value) in inits)]
+        typed = [c for c in walk_no_nested(f) if isinstance(c, ast.Call) and dotted(c.func) in ("isinstance", "type")]
+        if not floops or not rets:
+            raise AnalysisError(f"{fname}: scanning loop / return not found")
+        if stray:
+            res.fail(construct, f"`{short(stray[0], 70)}` answers without the scan: the mask / subsequence of every (child, parent) pair is what the element-by-element scan finds", mod, stray[0])
+        elif typed:
+            res.fail(construct, f"`{short(typed[0], 60)}` makes the answer depend on the type of the sequences: lists, tuples and strings of the same elements have the same masks", mod, typed[0])
+        else:
+            res.ok(construct, f"returns `{rets[0].value.id}`, built by the scan")
     # writer
     w = prog.func(SUBSEQ, "mask_from_subseq")
     construct = f"{SUBSEQ}:mask_from_subseq/bit-of-element"
